@@ -81,13 +81,17 @@ def gen_methods(src: Path):
             elif fn.name.startswith("handle_") and fn.name.endswith("_notification"):
                 found = None
                 for st in fn.body:
+                    # `if n.get("method") != M: return`  or the inverted  `if n.get("method") == M: <handle>`
                     if isinstance(st, ast.If) and isinstance(st.test, ast.Compare) and len(st.test.ops) == 1 \
-                            and isinstance(st.test.ops[0], ast.NotEq) and isinstance(st.test.left, ast.Call) \
+                            and isinstance(st.test.ops[0], (ast.NotEq, ast.Eq)) and isinstance(st.test.left, ast.Call) \
                             and getattr(st.test.left.func, "attr", None) == "get" and st.test.left.args \
-                            and isinstance(st.test.left.args[0], ast.Constant) and st.test.left.args[0].value == "method" \
-                            and len(st.body) == 1 and isinstance(st.body[0], ast.Return) and st.body[0].value is None:
-                        found = resolve(st.test.comparators[0], f"{rel}:{st.lineno}")
-                        break
+                            and isinstance(st.test.left.args[0], ast.Constant) and st.test.left.args[0].value == "method":
+                        early = isinstance(st.test.ops[0], ast.NotEq) and len(st.body) == 1 and isinstance(st.body[0], ast.Return) \
+                            and st.body[0].value is None
+                        inverted = isinstance(st.test.ops[0], ast.Eq) and not st.orelse and st is fn.body[-1]
+                        if early or inverted:
+                            found = resolve(st.test.comparators[0], f"{rel}:{st.lineno}")
+                            break
                 if found is None:
                     bad.append(f"{rel}:{fn.lineno}: {fn.name}: guard `if notification.get(\"method\") != M: return` not found")
                 else:
@@ -95,11 +99,21 @@ def gen_methods(src: Path):
         for cls in tree.body:
             if isinstance(cls, ast.ClassDef) and cls.name == "NotificationHandler":
                 rd = next((n for n in cls.body if isinstance(n, ast.FunctionDef) and n.name == "register_defaults"), None)
-                loop = next((n for n in ast.walk(rd) if isinstance(n, ast.For) and isinstance(n.iter, (ast.List, ast.Tuple))), None) if rd else None
+                seqs = {st.targets[0].id: st.value for st in tree.body if isinstance(st, ast.Assign) and len(st.targets) == 1
+                        and isinstance(st.targets[0], ast.Name) and isinstance(st.value, (ast.List, ast.Tuple))}
+                loop = None
+                for n in (ast.walk(rd) if rd else []):
+                    if isinstance(n, ast.For):
+                        it = n.iter
+                        if isinstance(it, ast.Name) and it.id in seqs:  # the list lives in a module-level constant
+                            it = seqs[it.id]
+                        if isinstance(it, (ast.List, ast.Tuple)):
+                            loop = it
+                            break
                 if loop is None:
                     bad.append(f"{rel}: NotificationHandler.register_defaults: list of methods not found")
                 else:
-                    for e in loop.iter.elts:
+                    for e in loop.elts:
                         m = resolve(e, f"{rel}:{e.lineno}")
                         if m is not None:
                             defaults.append(m)
